@@ -61,8 +61,8 @@ def equal(c, a, b):
         return False
     if "build_exc" in a or "build_exc" in b:
         return a.get("build_exc") == b.get("build_exc")
-    if "x" in b and b["x"] != a.get("x") and len(b["x"]) == len(a.get("x", [])) and b["x"]:
-        return False
+    if b.get("x") and b["x"] != a.get("x"):
+        return False                      # (the spec side answers no x-queries: its list is empty)
     return a.get("q") == b.get("q")
 
 
